@@ -6,7 +6,7 @@
    are tables computed by CPython for the numbers of the case (the oracle).  The checker also
    validates on those numbers the laws that props/C18.v assumes (round trip, printed form). *)
 From Coq Require Import List ZArith NArith Bool.
-From RxVerif Require Import Base.Corr Framing.Line Container.Csv.
+From RxVerif Require Import Base.Corr Framing.Line Container.Csv Container.IntText.
 Import ListNotations.
 
 Definition fl := list Z.                       (* float.hex() *)
@@ -33,7 +33,13 @@ Fixpoint contains (sep t : list Z) : bool :=
   is_prefix sep t || match t with [] => false | _ :: r => contains sep r end.
 Definition printed_okb (sep t : list Z) : bool :=
   negb (is_empty t) && negb (contains sep t) && negb (first_is_quote t) && negb (contains [newline] t).
+(* the int half of the number layer is concrete (Container/IntText.v, laws proved in IntTextProofs.v): CPython's
+   str(n) must be py_str_int n, and int(text) must be what py_int_of says wherever py_int_of is defined *)
+Definition int_layer_ok (tb : tabs) : bool :=
+  forallb (fun e => zs_eqb (py_str_int (fst e)) (snd e)) (t_istr tb)
+  && forallb (fun e => match py_int_of (fst e) with Some z => Z.eqb z (snd e) | None => true end) (t_ipar tb).
 Definition laws_ok (sep : list Z) (tb : tabs) : bool :=
+  int_layer_ok tb &&
   forallb (fun e => printed_okb sep (snd e) && option_eqb Z.eqb (tab_int_of tb (snd e)) (Some (fst e))) (t_istr tb)
   && forallb (fun e => printed_okb sep (snd e) && option_eqb zs_eqb (tab_float_of tb (snd e)) (Some (fst e))) (t_fstr tb).
 
